@@ -85,7 +85,8 @@ def check(cx):
             for r in RULES[:-1]:
                 rep.ob(r, inst, False, 'no piece index can be read off the result', fn=inst, file=file, line=line, key='C02:shape:' + inst)
             return
-        searches = [e for e in a.it.events if e['kind'] == 'search' and e['fn'] == inst]
+        # the search may sit in a helper that evaluate() calls: every search met while interpreting it belongs to it
+        searches = [e for e in a.it.events if e['kind'] == 'search']
         if len(searches) != 1:
             for r in RULES[:-1]:
                 rep.ob(r, inst, False, 'expected one search over the segments, found %d' % len(searches), fn=inst, file=file, line=line,
